@@ -406,9 +406,11 @@ pub fn run_c10(tier: Tier) -> i32 {
 // ------------------------------------------------------------------------------------------ C04
 fn step_c04(m: &EngModel, w: &mut World, s: &EngSt, a: &Act, out: &mut StepOut) -> Option<EngSt> {
     let so = m.observe_step(w, s, a, out);
-    let cps = cp_from_mon(&s.mon);
-    oracle_c04(w, &so, out, &cps);
-    Some(EngSt { snap: so.post_snap.clone(), mon: cp_to_mon(&cp_update(&cps, &so)) })
+    let book = book_from_mon(&s.mon);
+    let cps: CpRef = book.iter().map(|(k, r)| (k.clone(), r.cp as i128)).collect();
+    oracle_c04(w, &so, out, &cps, &book);
+    let nb = book_update(&book, w, &so, out, "C04");
+    Some(EngSt { snap: so.post_snap.clone(), mon: book_to_mon(&nb) })
 }
 
 fn seed_two_fundings() -> Vec<Act> {
@@ -458,8 +460,10 @@ pub fn run_c04(tier: Tier) -> i32 {
 // ------------------------------------------------------------------------------------------ C05
 fn step_c05(m: &EngModel, w: &mut World, s: &EngSt, a: &Act, out: &mut StepOut) -> Option<EngSt> {
     let so = m.observe_step(w, s, a, out);
-    oracle_c05(w, &so, out);
-    next(&so)
+    let book = book_from_mon(&s.mon);
+    let nb = book_update(&book, w, &so, out, "C05");
+    oracle_c05(w, &so, out, &book, &nb);
+    Some(EngSt { snap: so.post_snap.clone(), mon: book_to_mon(&nb) })
 }
 
 fn alpha_c05(w: &mut World, s: &EngSt) -> Vec<Act> {
@@ -853,9 +857,11 @@ pub fn run_c08(tier: Tier) -> i32 {
 // ------------------------------------------------------------------------------------------ C11
 fn step_c11(m: &EngModel, w: &mut World, s: &EngSt, a: &Act, out: &mut StepOut) -> Option<EngSt> {
     let so = m.observe_step(w, s, a, out);
-    let cps = cp_from_mon(&s.mon);
+    let book = book_from_mon(&s.mon);
+    let cps: CpRef = book.iter().map(|(k, r)| (k.clone(), r.cp as i128)).collect();
     oracle_c11(w, &so, out, &cps);
-    Some(EngSt { snap: so.post_snap.clone(), mon: cp_to_mon(&cp_update(&cps, &so)) })
+    let nb = book_update(&book, w, &so, out, "C11");
+    Some(EngSt { snap: so.post_snap.clone(), mon: book_to_mon(&nb) })
 }
 
 pub fn run_c11(tier: Tier) -> i32 {
